@@ -33,8 +33,9 @@ def make_case(R, tm, groups, lines):
             except Exception:  # noqa: BLE001
                 les.append("(-1, -1)")
         for g in groups:
-            vals = [l for i, l in g["lines"] if i < 5 or i == 7]
-            et = g["tick"] + (max(vals) if vals else 0)
+            opens = [l for i, l in g["lines"] if i == 7]
+            vals = [l for i, l in g["lines"] if i < 5]
+            et = g["tick"] + (opens[0] if opens else (max(vals) if vals else 0))     # an open line decides, wherever it stands
             if any(g["tick"] < t <= et for t, _ in tm):
                 crossing = True
             for t in (g["tick"], et):
@@ -72,6 +73,10 @@ def fixed_cases():
     g = [G(10, [(0, 5), (1, 5), (2, 5), (3, 5), (4, 77)]), G(20, [(4, 30), (0, 0)]), G(30, [(0, 0), (4, 0)]), G(5000, [(2, 3)])]
     out.append((R, tm, g))
     out.append((R, tm, []))
+    g = [G(192, [(0, 96), (7, 96)]), G(384, [(1, 0)]), G(500, [(2, 5)])]
+    out.append((R, tm, g))
+    g = [G(10, [(3, 40), (4, 50), (7, 0)]), G(20, [(4, 0)])]
+    out.append((R, tm, g))
     return [(R, tm, g, ["%d = N %d %d" % (x["tick"], i, l) for x in g for i, l in x["lines"]]) for R, tm, g in out]
 
 
@@ -83,6 +88,10 @@ def cases(ctx, n):
     while len(out) < n:
         R = rng.choice([192, 192, 480, 100, 7])
         groups = ig.gen_groups(rng, R, rng.choice([1, 2, 3, 5, 9]), flag_len=True)
+        if rng.random() < 0.25 and len(groups) >= 2:
+            # an "open chord": lane lines with lengths plus an open line at one tick; the NEXT note must be unaffected
+            k = rng.randrange(len(groups) - 1)
+            groups[k]["lines"] = [(rng.randrange(5), rng.choice([R, 96, 7])), (7, rng.choice([0, 96]))]
         if rng.random() < 0.3 and len(groups) >= 3:
             # a long sustain held under later short notes
             groups[0]["lines"] = [(i, 20 * R) if i < 5 or i == 7 else (i, l) for i, l in groups[0]["lines"]]
